@@ -50,6 +50,14 @@ def run(rep, idx, tier):
                 if x[0] == 'sub' and x[2][0] == 'slice' and x[1] in (c.parse("self.element.r_data"), c.parse("self.element.w_data")):
                     slices.add((x[1], x[2]))
     sl = {s for _, s in slices}
+    whole_r = c.drivers_of(c.parse("self.element.r_data"))
+    cat_parts = [d_ for d_ in whole_r if (lambda v: v[0] == 'call' and v[1] == ('name', 'Cat') and len(v[2]) == 1 and v[2][0][0] == 'listacc')(c.norm(d_.value))]
+    cat_mode = None
+    if whole_r and len(cat_parts) == len(whole_r) and not any(b == c.parse("self.element.r_data") for b, _ in slices):
+        cat_mode = concatenated_read_data(rep, idx, c, L, field, W, whole_r)
+        if cat_mode is None:
+            return
+        slices.add((c.parse("self.element.r_data"), next(iter(sl))) if len(sl) == 1 else (c.parse("self.element.r_data"), ('slice', ('const', 0), ('const', 0), ('const', 1))))
     if len(sl) != 1:
         rep.bad("C11.2", site, "one slice for read and write data", f"element.r_data / element.w_data are indexed with {len(sl)} different slices: "
                 + ", ".join(ir.show(s) for s in sl))
@@ -78,7 +86,7 @@ def run(rep, idx, tier):
     r_slice = ('sub', c.parse("self.element.r_data"), S)
     w_slice = ('sub', c.parse("self.element.w_data"), S)
     for tgt, cond, val, what in (
-            (r_slice, rd, c.parse("field.port.r_data", env), "element.r_data[slice] == field.port.r_data for readable fields"),
+            ((r_slice, rd, c.parse("field.port.r_data", env), "element.r_data[slice] == field.port.r_data for readable fields"),) if cat_mode is None else ()) + (
             (c.parse("field.port.r_stb", env), rd, c.parse("self.element.r_stb"), "field.port.r_stb == element.r_stb for readable fields"),
             (c.parse("field.port.w_data", env), wr, w_slice, "field.port.w_data == element.w_data[slice] for writable fields"),
             (c.parse("field.port.w_stb", env), wr, c.parse("self.element.w_stb"), "field.port.w_stb == element.w_stb for writable fields")):
@@ -93,7 +101,7 @@ def run(rep, idx, tier):
     # nothing else drives element.r_data
     for (dom, key), ds in c.groups.items():
         t = c.tir[(dom, key)]
-        if ir.mentions(t, c.parse("self.element.r_data")) and t != r_slice:
+        if ir.mentions(t, c.parse("self.element.r_data")) and t != r_slice and not (cat_mode and t == c.parse("self.element.r_data")):
             rep.bad("C11.3", site, key, "element.r_data is driven outside a readable field's own bit range (must read zero elsewhere)",
                     lines=[d.lineno for d in ds])
     # every field is a submodule
@@ -102,6 +110,86 @@ def run(rep, idx, tier):
               nontrivial=False)
     constructor(rep, idx)
     flatten_order(rep, idx)
+
+
+def concatenated_read_data(rep, idx, c, L, field, W, whole):
+    """element.r_data assigned once, as Cat(parts), with `parts` a list that receives exactly one element per field, in field
+    order: the field's own read data when it is readable, otherwise a constant zero.  The k-th part then sits at the sum of
+    the widths of the parts before it; that is the field's running offset exactly when every part is as wide as its field
+    (read data: FieldPort.Signature declares r_data with the port's shape; the zero: its explicit width).
+    Returns True when decided and correct, None when reported (violation or undecided)."""
+    site = c.fi.site
+    what = "element.r_data == concatenation of per-field parts, each as wide as its field"
+    if len(whole) != 1 or whole[0].domain != "comb" or whole[0].dsl:
+        rep.unk("C11.3", site, what, "element.r_data has several whole-vector drivers or a guarded one")
+        return None
+    d_ = whole[0]
+    for fr in d_.gen:
+        if fr[0] == 'for' or (fr[0] == 'pyif' and not all(x[1][0] == 'attr' and x[1][2] == 'readable' for x in ir.walk(c.norm(fr[1]))
+                                                    if x[0] == 'call')):
+            rep.unk("C11.3", site, what, f"the assignment is guarded by {ir.show(c.norm(fr[1]))[:80] if fr[0] == 'pyif' else 'a loop'}")
+            return None
+        if fr[0] == 'pyif' and not any(x[0] == 'call' for x in ir.walk(c.norm(fr[1]))):
+            rep.unk("C11.3", site, what, f"the assignment is guarded by {ir.show(c.norm(fr[1]))[:80]}")
+            return None
+    la = c.t.lists.get(c.norm(d_.value)[2][0][1])
+    rd = c.norm(ir.parse("field.port.access.readable()", {"field": field}))
+    if la is None or la.home:
+        rep.unk("C11.3", site, what, "the list of parts is not created once before the field loop")
+        return None
+    yes, no, other = [], [], []
+    for v, gen, ln in la.items:
+        frames = [(fr[0], c.norm(fr[1]) if fr[0] == 'pyif' else fr[1], (fr[2][0] if isinstance(fr[2], tuple) else fr[2]) if fr[0] == 'pyif' else None)
+                  for fr in gen]
+        if frames == [('for', L.id, None), ('pyif', rd, True)]:
+            yes.append((c.norm(v), ln))
+        elif frames == [('for', L.id, None), ('pyif', rd, False)]:
+            no.append((c.norm(v), ln))
+        elif frames == [('for', L.id, None)] and c.norm(v)[0] == 'phi' and c.norm(v)[1] == rd:
+            yes.append((c.norm(v)[2], ln))              # one append of `a if readable else b`
+            no.append((c.norm(v)[3], ln))
+        else:
+            other.append((c.norm(v), ln))
+    if other or len(yes) != 1 or len(no) != 1:
+        rep.unk("C11.3", site, what, f"parts are appended in {len(yes)} readable / {len(no)} non-readable / {len(other)} other place(s); the rule "
+                "needs exactly one part per field on each side of `field.port.access.readable()`")
+        return None
+    vy, vn = yes[0][0], no[0][0]
+    if vy != c.norm(ir.parse("field.port.r_data", {"field": field})):
+        rep.bad("C11.3", site, "element.r_data[slice] == field.port.r_data for readable fields",
+                f"the part contributed by a readable field is {ir.show(vy)[:80]}, not its port's r_data", line=yes[0][1])
+        return None
+    # the port's r_data is as wide as the field: FieldPort.Signature declares it with the shape
+    sig = idx.find_func("FieldPort.Signature.__init__")
+    declared = any(isinstance(n, ast.Dict) and any(isinstance(k, ast.Constant) and k.value == "r_data" and isinstance(v_, ast.Call) and
+                                                     ast.unparse(v_.func) == "In" and len(v_.args) == 1 and ast.unparse(v_.args[0]) in ("self.shape", "shape", "self._shape")
+                                                     for k, v_ in zip(n.keys, n.values)) for n in ast.walk(sig.node))
+    if not declared:
+        rep.unk("C11.3", site, what, "FieldPort.Signature does not declare r_data as In(<shape>) in a dictionary display; its width is not read off")
+        return None
+    zero_w = None
+    if vn[0] == 'call' and vn[1] in (('name', 'Const'), ('name', 'C')) and vn[2] and vn[2][0] == ('const', 0):
+        zero_w = c.norm(vn[2][1]) if len(vn[2]) > 1 else ('const', 1)
+        if len(vn[2]) == 1 and dict(vn[3]).get('shape') is not None:
+            zero_w = c.norm(dict(vn[3])['shape'])
+    elif vn == ('const', 0):
+        zero_w = ('const', 1)
+    if zero_w is None:
+        rep.form(False, "C11.3", site, what, f"the part contributed by a non-readable field is {ir.show(vn)[:80]}")
+        return None
+    # a width may be given as an int or as a shape (unsigned(w) / the port's own shape)
+    shape = c.norm(ir.parse("field.port.shape", {"field": field}))
+    ok_w = zero_w == W or zero_w == shape or zero_w == c.norm(('call', ('name', 'unsigned'), (W,), ()))
+    if not ok_w:
+        rep.bad("C11.3", site, "non-readable fields occupy their own width in element.r_data (and read as zero)",
+                f"the placeholder of a non-readable field is {ir.show(vn)[:60]}, {ir.show(zero_w)[:60]} bit(s) wide, not the field's width "
+                f"{ir.show(W)[:60]}: every field after a write-only or reserved field whose width differs is read back at a shifted position, "
+                "while writes still use the correct slice", line=no[0][1])
+        return None
+    rep.ok("C11.3", site, "element.r_data[slice] == field.port.r_data for readable fields",
+           "one part per field in field order: r_data (declared with the port's shape) for readable fields, a zero of the field's width otherwise; "
+           "the position of a part in the concatenation is the sum of the earlier widths, i.e. the running offset")
+    return True
 
 
 def constructor(rep, idx):
